@@ -34,6 +34,39 @@ fn arg_s(args: &[String], key: &str) -> Option<String> {
     None
 }
 
+/// A self-referential derive input: outside the finite type algebra of the model; decoding
+/// recurses once per nesting level of the INPUT (C05, known finding D7).
+#[derive(Debug, PartialEq, ssz_derive::Encode, ssz_derive::Decode)]
+struct Tree {
+    c: Vec<Tree>,
+}
+
+fn deep(depth: usize) {
+    use ssz::Decode;
+    let mut bytes: Vec<u8> = Vec::with_capacity(8 * depth + 4);
+    for _ in 0..depth {
+        bytes.extend_from_slice(&[4, 0, 0, 0, 4, 0, 0, 0]);
+    }
+    bytes.extend_from_slice(&[4, 0, 0, 0]);
+    match Tree::from_ssz_bytes(&bytes) {
+        Ok(t) => {
+            let mut d = 0usize;
+            let mut cur = &t;
+            while let Some(n) = cur.c.first() {
+                d += 1;
+                cur = n;
+            }
+            println!("deep\t{}\tok\t{}", depth, d);
+            // the value is dropped iteratively: Drop of a deep tree would itself recurse
+            let mut stack = vec![t];
+            while let Some(mut n) = stack.pop() {
+                stack.append(&mut n.c);
+            }
+        }
+        Err(_) => println!("deep\t{}\terr", depth),
+    }
+}
+
 fn unhex(s: &str) -> Vec<u8> {
     if s == "-" {
         return vec![];
@@ -47,6 +80,10 @@ fn main() {
     assert_eq!(std::mem::size_of::<usize>(), 8, "the model assumes a 64-bit target");
     std::panic::set_hook(Box::new(|_| {}));
     let args: Vec<String> = std::env::args().collect();
+    if let Some(d) = arg_s(&args, "--deep") {
+        deep(d.parse().unwrap());
+        return;
+    }
     let out = arg_s(&args, "--out").expect("--out <file>");
     let seed: u64 = arg(&args, "--seed", 1);
     let ops: HashSet<String> = arg_s(&args, "--ops")
